@@ -771,6 +771,10 @@ func c20flipAdds(c *vf.Ctx, i int) {
 // with its answer under one of the messages in the cycle, so an answer that
 // no message gives is a violation.
 func c20flipQueries(c *vf.Ctx, i int) {
+	if i%100 == 99 {
+		c20flipBigTx(c, i/100)
+		return
+	}
 	w := c20buildWorldOpt(c.R, c.R.Chance(1, 2), true)
 	var st c20state
 	shaped := i%2 == 0
@@ -907,6 +911,84 @@ func c20flipQueries(c *vf.Ctx, i int) {
 		}
 	}
 	c.Nontrivial(vf.Mix(h, uint64(i)))
+}
+
+// c20flipBigTx: a transaction with thousands of outputs, one of which message
+// A matches (near the end) and one of which message B matches (near the
+// start), flag NONE; the filter is switched between A and B while other
+// goroutines match the transaction.  Under every sequential order the call
+// sees ONE message throughout and returns true.
+func c20flipBigTx(c *vf.Ctx, i int) {
+	r := c.R
+	n := 8200 + r.Intn(8000)
+	ha, hb := r.Bytes(20), r.Bytes(20)
+	pa, pb := n-1-r.Intn(1000), r.Intn(1000)
+	mtx := wire.NewMsgTx(1)
+	mtx.AddTxIn(wire.NewTxIn(wire.NewOutPoint(&chainhash.Hash{7}, 0), nil))
+	for j := 0; j < n; j++ {
+		h := []byte{byte(j), byte(j >> 8), 0x5a, 1, 2, 3, 4, 5, 6, 7, 8, 9, 10, 11, 12, 13, 14, 15, 16, 17}
+		if j == pa {
+			h = ha
+		}
+		if j == pb {
+			h = hb
+		}
+		script := append(append([]byte{0x76, 0xa9, 0x14}, h...), 0x88, 0xac)
+		mtx.AddTxOut(wire.NewTxOut(int64(j), script, wire.TokenData{}))
+	}
+	mk := func(item []byte) *wire.MsgFilterLoad {
+		m := &ref.BloomModel{Bits: make([]byte, 512), NHash: 5, Tweak: r.Uint32(), Loaded: true}
+		m.Add(item)
+		return wire.NewMsgFilterLoad(append([]byte{}, m.Bits...), m.NHash, m.Tweak, wire.BloomUpdateNone)
+	}
+	msgA, msgB := mk(ha), mk(hb)
+	// (a collision that makes another output match as well only adds matches)
+	f := bloom.LoadFilter(msgA)
+	k := []int{2, 3, 4}[i%3]
+	runtime.GOMAXPROCS([]int{2, 4, 16}[(i/3)%3])
+	var done atomic.Bool
+	var wg, rg sync.WaitGroup
+	misses := make([]int, k)
+	calls := 14
+	start := make(chan struct{})
+	rg.Add(1)
+	go func() {
+		defer rg.Done()
+		<-start
+		for j := 0; !done.Load(); j++ {
+			if j%2 == 0 {
+				f.Reload(msgB)
+			} else {
+				f.Reload(msgA)
+			}
+		}
+	}()
+	for g := 0; g < k; g++ {
+		wg.Add(1)
+		go func(g int) {
+			defer wg.Done()
+			tx := bchutil.NewTx(mtx)
+			<-start
+			for j := 0; j < calls; j++ {
+				if !f.MatchTxAndUpdate(tx) {
+					misses[g]++
+				}
+			}
+		}(g)
+	}
+	close(start)
+	wg.Wait()
+	done.Store(true)
+	rg.Wait()
+	runtime.GOMAXPROCS(runtime.NumCPU())
+	c.Evals(int64(k * calls))
+	c.Count("flip_big_transaction_matches", int64(k*calls))
+	for g, m := range misses {
+		if m > 0 {
+			c.Failf("Filter/Reload-during-query/answer-of-no-state", "MatchTxAndUpdate on a transaction of %d outputs returned false %d times in goroutine %d while another goroutine switched the filter between two messages that BOTH match it (output %d / output %d; flag NONE)", n, m, g, pa, pb)
+		}
+	}
+	c.Nontrivial(vf.Mix(25, uint64(i), uint64(n), vf.HashBytes(ha)))
 }
 
 // c20gcs: one immutable GCS filter queried by 32 goroutines.
